@@ -148,9 +148,7 @@ func (db *DB) ReviveObject(addr oid.Address) (res ReviveStatus, err error) {
 
 func reviveCounters(metaC *bbolt.Cursor, gcStatus uint8, obj oid.ID) error {
 	var (
-		typ  object.Type = -1
 		phy  bool
-		root bool
 		size uint64
 	)
 
@@ -158,53 +156,22 @@ func reviveCounters(metaC *bbolt.Cursor, gcStatus uint8, obj oid.ID) error {
 		switch string(k) {
 		case object.FilterPayloadSize:
 			size, _ = strconv.ParseUint(string(v), 10, 64)
-		case object.FilterType:
-			typ.DecodeString(string(v))
 		case object.FilterPhysical:
 			phy = string(v) == binPropMarker
-		case object.FilterRoot:
-			root = string(v) == binPropMarker
 		default:
 		}
 	}
 
+	// Removal marks change the payload counter of physical objects only,
+	// per-type counters are kept until the object is deleted physically,
+	// so there is nothing else to restore.
 	switch gcStatus {
 	case statusTombstoned, statusGCMarked:
-		err := updateCounter(metaC.Bucket(), payloadCounter, int64(size))
-		if err != nil {
-			return fmt.Errorf("update payload counter: %w", err)
-		}
-	default:
-	}
-
-	switch typ {
-	case object.TypeRegular:
 		if phy {
-			err := updateCounter(metaC.Bucket(), phyCounter, 1)
+			err := updateCounter(metaC.Bucket(), payloadCounter, int64(size))
 			if err != nil {
-				return fmt.Errorf("revive PHY counter : %w", err)
+				return fmt.Errorf("update payload counter: %w", err)
 			}
-		}
-		if root {
-			err := updateCounter(metaC.Bucket(), rootCounter, 1)
-			if err != nil {
-				return fmt.Errorf("revive ROOT counter : %w", err)
-			}
-		}
-	case object.TypeTombstone:
-		err := updateCounter(metaC.Bucket(), tsCounter, 1)
-		if err != nil {
-			return fmt.Errorf("revive TS counter : %w", err)
-		}
-	case object.TypeLock:
-		err := updateCounter(metaC.Bucket(), lockCounter, 1)
-		if err != nil {
-			return fmt.Errorf("revive LOCK counter : %w", err)
-		}
-	case object.TypeLink:
-		err := updateCounter(metaC.Bucket(), linkCounter, 1)
-		if err != nil {
-			return fmt.Errorf("revive LINK counter : %w", err)
 		}
 	default:
 	}
